@@ -18,7 +18,8 @@ open Tie Py GmxV1
 theorem Tie_gmx_collect_swap_fee (cx : NumCtx) (tok : String) (amount fee : Rat) :
     Py.gmx__collect_swap_fee cx tok amount fee = .ok (afterFee cx amount fee) := by
   unfold Py.gmx__collect_swap_fee afterFee
-  simp [Gen.gmxBpsDivisor, pure, Except.pure]
+  -- the divisor may be written as a literal (`/ 10000`: emitted as `cx.div`) or as a named constant (emitted as the raising `Py.ddiv`)
+  simp [Gen.gmxBpsDivisor, pure, Except.pure, bind, Except.bind, ddiv_ok _ _ _ (by norm_num : (10000 : Rat) ≠ 0)]
 
 theorem Tie_gmx_get_fee_basis_points (cx : NumCtx) (tok : String) (initial usdgAmount target : Rat) (increase : Bool) :
     Py.gmx_get_fee_basis_points cx initial target (Gen.gmxMintBurnFeeBps : Int) (Gen.gmxTaxBps : Int) tok usdgAmount increase
